@@ -53,7 +53,7 @@ UNDEF = Undef()
 
 
 class Region:
-    __slots__ = ('rid', 'size', 'cells', 'kind', 'name', 'lazy', 'fills', 'freed', 'const', 'writes')
+    __slots__ = ('rid', 'size', 'cells', 'kind', 'name', 'lazy', 'fills', 'freed', 'const', 'writes', 'links')
 
     def __init__(self, rid, size, kind, name, lazy=False):
         self.rid = rid
@@ -66,6 +66,7 @@ class Region:
         self.freed = False
         self.const = False
         self.writes = 0
+        self.links = []   # (dst_start, dst_end, src_rid, src_start): lazily copied ranges
 
     def copy(self):
         r = Region(self.rid, self.size, self.kind, self.name, self.lazy)
@@ -74,6 +75,7 @@ class Region:
         r.freed = self.freed
         r.const = self.const
         r.writes = self.writes
+        r.links = list(self.links)
         return r
 
 
@@ -378,6 +380,11 @@ class Executor:
                     if isinstance(ty, IntT):
                         return int.from_bytes(bytes([byte]) * size, 'little') & mask(ty.bits)
                     raise Unsupported('fill load')
+            for (a, b, srid, sstart) in reversed(r.links):
+                if a <= off and off + size <= b:
+                    v = self.load(st, Ptr(srid, sstart + (off - a)), ty)
+                    r.cells[off] = (v, size)
+                    return v
             if r.lazy:
                 v = self.fresh_of(st, ty, '%s@%d' % (r.name, off))
                 r.cells[off] = (v, size)
@@ -522,6 +529,17 @@ class Executor:
                 for i in range(s):
                     if not (off <= o + i < off + size):
                         cells[o + i] = ((v >> (8 * i)) & 255, 1)
+        if r.links:
+            newl = []
+            for (a, b, srid, sst) in r.links:
+                if b <= off or a >= off + size:
+                    newl.append((a, b, srid, sst))
+                else:
+                    if a < off:
+                        newl.append((a, off, srid, sst))
+                    if b > off + size:
+                        newl.append((off + size, b, srid, sst + (off + size - a)))
+            r.links = newl
         # fills are shadowed by cells; record a hole by adding explicit marker
         if r.fills:
             newf = []
@@ -603,11 +621,16 @@ class Executor:
                 pos = max(pos, b)
             if pos < s.off + n:
                 gaps.append((pos, s.off + n))
+            lazy_links = []
             for a, b in gaps:
                 if any(fa <= a and b <= fb for fa, fb, _ in fills):
                     continue
-                raise Unsupported('memcpy from lazily-initialised region %s [%d,%d)' % (rs.name, a, b))
+                # contents not yet materialised (their type is unknown): copy lazily
+                lazy_links.append((a - s.off + d.off, b - s.off + d.off, rs.rid, a))
+        else:
+            lazy_links = []
         self.clobber(rd, d.off, n)
+        rd.links += lazy_links
         for (a, b, byte) in fills:
             rd.fills.append((a - s.off + d.off, b - s.off + d.off, byte))
         for o, v, sz in items:
